@@ -103,15 +103,18 @@ def stream_sets(ctx):
     bk, bkt, fw = mods(ctx)
     st = Stream('index-sets', '_update_set / _occupation_set / _parity_set for every index j < n, every n <= N '
                 '(N = 40 quick, 64 thorough, so all non-powers of two below N) and the FenwickTree update / children / '
-                'remainder / parity sets for every j < n <= Nt; Model compared exactly (lists for the tree); Spec '
+                'remainder / parity sets for every j < n <= Nt; Model compared exactly (as sets); Spec '
                 'oracle: the sets tile [0,j) / [lo j, j] and are exactly the qubits storing j; distinct = (variant,n,j)')
     b = Batch(ctx, st)
     N = budget(ctx.tier, 40, 64)
     Nt = budget(ctx.tier, 24, 40)
 
     def cmp_sets(st_, what, case, impl, mo):
-        if impl != mo:
+        # compared as sets: the order in which a set is listed is not part of the property
+        if {k: sorted(v) for k, v in impl.items()} != {k: sorted(v) for k, v in mo.items()}:
             st_.disagree(what + ': sets differ', case, impl, mo)
+        if any(len(set(v)) != len(v) for v in impl.values()):
+            st_.violate(what + ': an index occurs twice in a set', case, impl)
     for n in range(1, N + 1):
         for j in range(n):
             case = {'fn': '_update_set/_occupation_set/_parity_set', 'n': n, 'index': j}
